@@ -1113,10 +1113,12 @@ hwloc_linux_get_tid_cpubind(hwloc_topology_t topology __hwloc_attribute_unused, 
   }
 
   last = -1;
-  if (topology->levels[0][0]->complete_cpuset)
+  if (!(topology->state & HWLOC_TOPOLOGY_STATE_IS_LOADING) && topology->levels[0][0]->complete_cpuset)
     last = hwloc_bitmap_last(topology->levels[0][0]->complete_cpuset);
   if (last == -1)
-    /* round the maximal support number, the topology isn't ready yet (complete_cpuset is missing or empty)*/
+    /* round the maximal support number, the topology isn't ready yet (still being discovered,
+     * possibly from a HWLOC_FSROOT tree with fewer CPUs than this machine, or complete_cpuset is missing or empty):
+     * a backend that saves and restores the binding during discovery must get the whole kernel mask */
     last = kernel_nr_cpus-1;
 
   hwloc_bitmap_zero(hwloc_set);
